@@ -29,6 +29,7 @@ import ScalesModel.Adapter.SerialC12
 import ScalesModel.Adapter.MuxT
 import ScalesModel.Adapter.Watermark
 import ScalesModel.Adapter.ServerSet
+import ScalesModel.Adapter.LB
 open Scales
 
 def components : List Comp := [
@@ -55,7 +56,10 @@ def components : List Comp := [
   ⟨"serial12", Scales.SerialC12.comp.run⟩,
   ⟨"muxt", Scales.MuxT.comp.run⟩,
   ⟨"watermark", Scales.Watermark.comp.run⟩,
-  ⟨"serverset", Scales.ServerSet.comp.run⟩
+  ⟨"serverset", Scales.ServerSet.comp.run⟩,
+  ⟨"lbheap", Scales.LB.comp5.run⟩,
+  ⟨"lbaperture", Scales.LB.comp5.run⟩,
+  ⟨"aperture", Scales.LB.comp6.run⟩
 ]
 
 structure CaseAcc where
